@@ -202,11 +202,24 @@ fn run_one_inner(args: &Args, prof: &Profile, run: u64, rep: &mut Report, make_m
 
 fn drive(sim: &mut Sim, prof: &Profile, rng: &mut Rng, rep: &mut Report, ctype: ChanType) -> Result<(), String> {
 	let n = prof.nodes;
+	let mut async_on = vec![false; n];
 	// --- open channels: a line 0-1-2-... ---
 	for i in 0..n - 1 {
 		let value = *rng.pick(&[20_000u64, 50_000, 100_000, 400_000, 2_000_000]) + rng.below(10_000);
 		let push = if rng.chance(1, 3) { 0 } else { rng.below(value * 1000 / 2) };
-		let r = sim.w.open_channel(i, i + 1, value, push, None);
+		// under delayed-persistence profiles the opening handshake itself runs with async persisters,
+		// random completion order and reconnects
+		let chaos = (prof.allow_async || prof.allow_deferred) && rng.chance(1, 2);
+		if chaos && prof.allow_async {
+			for k in [i, i + 1] {
+				if rng.chance(1, 2) && !async_on[k] {
+					async_on[k] = true;
+					sim.w.nodes[k].persister.async_mode.store(true, Ordering::SeqCst);
+					sim.w.note(format!("ASYNC node{} persister returns InProgress from the start", k));
+				}
+			}
+		}
+		let r = sim.w.open_channel(i, i + 1, value, push, None, chaos);
 		sim.dispatch(rep);
 		match r {
 			Ok(_) => {},
@@ -218,7 +231,6 @@ fn drive(sim: &mut Sim, prof: &Profile, rng: &mut Rng, rep: &mut Report, ctype: 
 		}
 	}
 	rep.count("runs_with_channels_open");
-	let mut async_on = vec![false; n];
 	let mut disconnected: Vec<(usize, usize)> = vec![];
 	let mut mined = 0u32;
 	for _s in 0..prof.steps {
